@@ -29,13 +29,13 @@ EXPLANATION = (
     "real h5py files with the failing write patched to raise OSError.")
 ASSUMPTIONS = [
     "h5py replaced by an in-memory group tree with its documented contract (HDF5 on-disk atomicity, type coercion, gzip/fletcher32 are outside; replays use real h5py)",
-    "IndentationGroup(path) of the embedded raw file is a stub that rebuilds the curve from the recorded raw columns; hash_file is an injective function of the path; np.fromfile returns an opaque token",
+    "IndentationGroup(path) of the embedded raw file is a stub over a small model of the temp directory (path -> extracted content, read lazily like afmformats does) that rebuilds the curve from the recorded raw columns; hash_file is an injective function of the path; np.fromfile returns an opaque token",
     "lmfit Parameters.dumps/loads is a contract stub (opaque round trip)",
     "N=3 samples per curve; settings as produced by fit_model plus the corner values [] and numpy scalars for the two string codecs",
 ]
 BUDGET_S = {"quick": 900, "thorough": 2400}
 QUERY_TIMEOUT_MS = {"quick": 30000, "thorough": 60000}
-OPS = ["A", "A-again", "A-otherfit", "B-enum", "C-file"]
+OPS = ["A", "A-again", "A-otherfit", "B-enum", "C-file", "D-same-basename"]
 
 
 def bounds(tier):
@@ -66,25 +66,41 @@ def _world():
     io.h5py = fakeh5
     io.hash_file = lambda path, blocksize=65536: "h" + "".join(c for c in str(path) if c.isalnum())
     registry = {}
-    symnp.fromfile = lambda path, dtype=None: symnp.SymArr([True, False], dtype=symnp.bool_)
+    tmpfs = {}          # extracted raw files: temp path -> source measurement path
 
-    class _Tok(symnp.SymArr):
+    class RawBytes(symnp.SymArr):
+        """Opaque content of a measurement file (identified by its source)."""
+        def __init__(self, source):
+            super().__init__([True, False], dtype=symnp.bool_)
+            self.source = source
+
+        def copy(self):
+            return RawBytes(self.source)
+
         def tofile(self, p):
-            registry.setdefault("written", []).append(str(p))
-    _orig_ds_get = fakeh5.Dataset.__getitem__
+            tmpfs[str(p)] = self.source
+    symnp.fromfile = lambda path, dtype=None: RawBytes(str(path))
 
     class Grp:
+        """IndentationGroup(path) of an extracted raw file: rebuilds the curves
+        of the measurement whose bytes were written to that path."""
         def __init__(self, path):
             self.path = str(path)
+            if self.path not in tmpfs:
+                raise OSError("no such extracted file")
+
+        @property
+        def source(self):
+            # afmformats loads the column data lazily: what the extracted file
+            # holds when the curve is finally read is what counts
+            return tmpfs[self.path]
 
         def get_enum(self, enum):
-            key = [k for k in registry if isinstance(k, tuple) and self.path.endswith(k[0].split("/")[-1]) and k[1] == enum]
-            raw = registry[key[0]]
+            raw = registry[(self.source, enum)]
             return common.make_indentation(w, {c: symnp.SymArr(list(v)) if c != "segment"
                                                else symnp.SymArr(list(v), dtype=symnp.uint8) for c, v in raw.items()},
-                                           spring_constant=Fr(1, 10), path=key[0][0], enum=enum)
+                                           spring_constant=Fr(1, 10), path=self.source, enum=enum)
     io.IndentationGroup = Grp
-    symnp.SymArr.tofile = lambda self, p: None
     import pathlib
 
     class P(pathlib.PurePosixPath):
@@ -221,8 +237,11 @@ def _do(io, w, registry, op, j):
         assume(real("a_fit0") >= 0)
     elif op == "B-enum":
         c = make_curve(w, registry, "b", "/data/a.jpk-force", 1)
-    else:
+    elif op == "C-file":
         c = make_curve(w, registry, "c", "/data/c.jpk-force", 0)
+    else:
+        # another measurement file with the same base name in another folder
+        c = make_curve(w, registry, "d", "/other/a.jpk-force", 0)
     try:
         io.save_hdf5("/c.h5", c, user_rate=j, user_name=f"user{j}", user_comment=f"comment{j}")
         return c, None
@@ -301,10 +320,15 @@ def t_history(hist):
             dat_b = before["children"].get("data", {"children": {}})["children"]
             for g, sb in dat_b.items():
                 prove(f"step{j}:raw-data-entries-untouched[{g}]", _tree_eq(sb, after["children"]["data"]["children"][g]))
-        stored[gid] = "a2" if op == "A-otherfit" else {"A": "a", "A-again": "a", "B-enum": "b", "C-file": "c"}[op]
+        stored[gid] = "a2" if op == "A-otherfit" else {"A": "a", "A-again": "a", "B-enum": "b", "C-file": "c", "D-same-basename": "d"}[op]
         ratings = io.load("/c.h5")
         prove(f"step{j}:one-rating-per-stored-curve", len(ratings) == len(stored))
         mine = [r for r in ratings if r["enum"] == c.enum and str(r["data_set"].path) == str(c.path)]
+        # every stored curve is rebuilt from its own measurement file
+        prove(f"step{j}:each-rating-belongs-to-its-own-file",
+              sorted((str(r["data_set"].path), r["enum"]) for r in ratings)
+              == sorted({"a": ("/data/a.jpk-force", 0), "a2": ("/data/a.jpk-force", 0), "b": ("/data/a.jpk-force", 1),
+                         "c": ("/data/c.jpk-force", 0), "d": ("/other/a.jpk-force", 0)}[t] for t in stored.values()))
         prove(f"step{j}:latest-user-fields", len(mine) == 1 and mine[0]["rating"] == j + 1
               and mine[0]["name"] == f"user{j + 1}" and mine[0]["comment"] == f"comment{j + 1}")
     return {"history": [OPS[i] for i in hist]}
@@ -462,8 +486,14 @@ def curve(op):
         i = nanite.IndentationGroup(mapf)[0]
     elif op == "B-enum":
         i = nanite.IndentationGroup(mapf)[1]
-    else:
+    elif op == "C-file":
         i = nanite.IndentationGroup(files[0])[0]
+    else:
+        # a different measurement with the base name of the map file, in another folder
+        other = tdir / "other"; other.mkdir(exist_ok=True)
+        tgt = other / mapf.name
+        if not tgt.exists(): shutil.copy(jpk / "fmt-jpk-fd_map1d_2016-11-07.jpk-force-map", tgt)
+        i = nanite.IndentationGroup(tgt)[0]
     i.apply_preprocessing(["compute_tip_position", "correct_force_offset", "correct_tip_offset"])
     if op == "A-otherfit":
         i.fit_model(model_key="hertz_cone")
@@ -492,6 +522,7 @@ for j, op in enumerate(hist):
         err = e
     after = dump(h5)
     kind = "a2" if op == "A-otherfit" else op[0].lower()
+    paths_expected = None
     if gid in stored and stored[gid] != kind:
         if err is None: bad.append("step %d: different fit accepted" % j)
         if before != after: bad.append("step %d: refused save changed the file" % j)
@@ -506,8 +537,11 @@ for j, op in enumerate(hist):
             if own and k in VOL: continue
             if a2.get(k) != v: bad.append("step %d: attribute %s of %s changed" % (j, k, name))
     stored[gid] = kind
-    rr = rio.load(h5)
-    if len(rr) != len(stored): bad.append("step %d: %d ratings for %d stored curves" % (j, len(rr), len(stored)))
+    try:
+        rr = rio.load(h5)
+        if len(rr) != len(stored): bad.append("step %d: %d ratings for %d stored curves" % (j, len(rr), len(stored)))
+    except BaseException as e:
+        bad.append("step %d: load raised %r" % (j, e))
 shutil.rmtree(tdir, ignore_errors=True)
 print({ob["name"]!r}, bad)
 if bad:
@@ -524,8 +558,14 @@ def curve(op):
         i = nanite.IndentationGroup(mapf)[0]
     elif op == "B-enum":
         i = nanite.IndentationGroup(mapf)[1]
-    else:
+    elif op == "C-file":
         i = nanite.IndentationGroup(files[0])[0]
+    else:
+        # a different measurement with the base name of the map file, in another folder
+        other = tdir / "other"; other.mkdir(exist_ok=True)
+        tgt = other / mapf.name
+        if not tgt.exists(): shutil.copy(jpk / "fmt-jpk-fd_map1d_2016-11-07.jpk-force-map", tgt)
+        i = nanite.IndentationGroup(tgt)[0]
     i.apply_preprocessing(["compute_tip_position", "correct_force_offset", "correct_tip_offset"])
     if op == "A-otherfit":
         i.fit_model(model_key="hertz_cone")
@@ -554,6 +594,7 @@ for j, op in enumerate(hist):
         err = e
     after = dump(h5)
     kind = "a2" if op == "A-otherfit" else op[0].lower()
+    paths_expected = None
     if gid in stored and stored[gid] != kind:
         if err is None: bad.append("step %d: different fit accepted" % j)
         if before != after: bad.append("step %d: refused save changed the file" % j)
@@ -568,8 +609,11 @@ for j, op in enumerate(hist):
             if own and k in VOL: continue
             if a2.get(k) != v: bad.append("step %d: attribute %s of %s changed" % (j, k, name))
     stored[gid] = kind
-    rr = rio.load(h5)
-    if len(rr) != len(stored): bad.append("step %d: %d ratings for %d stored curves" % (j, len(rr), len(stored)))
+    try:
+        rr = rio.load(h5)
+        if len(rr) != len(stored): bad.append("step %d: %d ratings for %d stored curves" % (j, len(rr), len(stored)))
+    except BaseException as e:
+        bad.append("step %d: load raised %r" % (j, e))
 shutil.rmtree(tdir, ignore_errors=True)
 print({ob["name"]!r}, bad)
 if bad:
